@@ -6,15 +6,61 @@
    theorem titles and headings, by the expansion of a user macro body, by an
    inline formula, by a displayed equation in simple mode and by an error
    mark are pinned at the position of the construct's first token or at the
-   position of one of its argument tokens.  Not proved: the same for the
+   position of one of its argument tokens.  End to end, for every document
+   accepted by the computable test doc_in_class (plain text, special
+   sequences, undeclared control words, comments, braces, nested
+   pass-through macros, macros without arguments whose body is text): every
+   visible one-line token that parser_work returns is a scanner token at its
+   own place, or the tabulated text of a special sequence at the position of
+   the sequence, or a token of the body of a macro pinned at the position of
+   the macro call (C04_generated_text_of_the_class).  Not proved: the same for the
    remaining handlers and environments, and that the buffer positions
    handed to these steps are those of the construct; decided on the C04
    stream by the span oracle of harness/props/c04.py (every generated
    character inside the span of its construct) and the correspondence run. *)
 From Coq Require Import String.
-From YV Require Import PyBase Token Utils PState Parser Expand Math ExpandSites
-                       LatexErrorProofs ShellMap.
+From YV Require Import PyBase CharTables Token Utils Scanner PState Parser Expand Math Exec
+                       ExpandSites LatexErrorProofs ShellMap ScanFaithful RpalProofs ExecPlain
+                       ExecUnk ExecArgs ClassDecide Catalogue.
 Open Scope Z_scope.
+
+Theorem C04_generated_text_of_the_class : forall rd fuel st latex r,
+  doc_in_class py_tables st latex = true ->
+  parser_work py_tables (exec py_tables rd fuel) st latex = Ok r ->
+  let toks := fst (scan (t_scan py_tables) latex) in
+  Forall (fun t => (In t toks /\ faithful latex t) \/
+                   (exists s v, In s toks /\ faithful latex s /\ tk s = KSpecial /\
+                                assoc (txt s) (t_special_values py_tables) = Some v /\
+                                t = mk KText (pos s) v (pfix s)) \/
+                   (exists m mac body b, In m toks /\ faithful latex m /\ tk m = KMacro /\
+                                assoc (txt m) (macros st) = Some mac /\
+                                m_repl mac = RToks body /\ In b body /\
+                                t = set_pos_fix b (pos m)))
+         (filter (solid py_isspace) (snd r)).
+Proof.
+  exact (fun rd fuel st latex r Hd Hp =>
+           proj1 (proj2 (parser_work_class py_tables rd (eq_refl true) (fun c => eq_refl)
+                                           (eq_refl true) (eq_refl true) fuel st latex r Hd Hp))).
+Qed.
+Print Assumptions C04_generated_text_of_the_class.
+
+(* a document with a macro \ua -> UA declared without arguments: the two
+   letters of each use are pinned at the backslash of the call *)
+Example C04_class_example :
+  let ua := {| m_name := s2l "\ua"; m_args := [];
+               m_repl := RToks [TextT 17 [85]%N; TextT 18 [65]%N];
+               m_defaults := []; m_extract := [] |} in
+  let st0 := upd_macros (init_state py_tables (s2l "en") false false true)
+                        [(s2l "\ua", ua)] in
+  let latex := s2l "ab \ua  cd \ua{} e" in
+  doc_in_class py_tables st0 latex = true /\
+  match parser_work py_tables (exec py_tables (fun _ => None) 200) st0 latex with
+  | Ok r => Some (map (fun t => (txt t, pos t, pfix t)) (filter (solid py_isspace) (snd r)))
+  | _ => None end
+  = Some [([97]%N, 0, false); ([98]%N, 1, false); ([85]%N, 3, true); ([65]%N, 3, true);
+          ([99]%N, 8, false); ([100]%N, 9, false); ([85]%N, 11, true); ([65]%N, 11, true);
+          ([101]%N, 17, false)].
+Proof. split; vm_compute; reflexivity. Qed.
 
 Theorem C04_citation : forall T rd rec fuel st buf name args p st' o,
   run_handler T rd rec fuel HCite st buf name args p = Ok (st', o) ->
